@@ -100,6 +100,10 @@ struct Case {
     /// storage-shape perturbation (icyv::shape), 0 = stored exactly as built
     #[serde(default)]
     shape: u8,
+    /// how bright foregrounds are stored: 0 = colour 8..=15, 1 = colour 0..=7 + BOLD flag (as the ANSI parser stores them), 2 = alternating by column,
+    /// 3 = colour 8..=15 with the BOLD flag set as well
+    #[serde(default)]
+    rep: u8,
 }
 
 /// the grid actually saved: every row holds its significant cells (no trailing blank on black)
@@ -112,6 +116,7 @@ struct Norm {
     rows: Vec<Vec<Cell>>,
     pad: Vec<bool>,
     shape: u8,
+    rep: u8,
 }
 
 const NEUTRAL: Cell = Cell(b'z', 7, 0);
@@ -214,7 +219,7 @@ fn normalize(c: &Case) -> Norm {
             r0[i] = Cell(*b, 7, 0);
         }
     }
-    let mut n = Norm { fmt, prep: c.prep % 3, alt: c.alt % 9, w, rows, pad, shape: c.shape % icyv::shape::CODES };
+    let mut n = Norm { fmt, prep: c.prep % 3, alt: c.alt % 9, w, rows, pad, shape: c.shape % icyv::shape::CODES, rep: c.rep % 4 };
     tidy(&mut n);
     n
 }
@@ -233,7 +238,23 @@ fn build(n: &Norm) -> Buffer {
     }
     for (y, row) in n.rows.iter().enumerate() {
         for (x, Cell(ch, fg, bg)) in row.iter().enumerate() {
-            buf.layers[0].set_char((x as i32, y as i32), AttributedChar::new(*ch as char, TextAttribute::new(*fg as u32, *bg as u32)));
+            let mut attr = TextAttribute::new(*fg as u32, *bg as u32);
+            if *fg >= 8 && n.fmt != ATA {
+                // the same displayed colour, stored the way other producers store it
+                match n.rep {
+                    1 => {
+                        attr.set_foreground(*fg as u32 - 8);
+                        attr.set_is_bold(true);
+                    }
+                    2 if (x + y) % 2 == 0 => {
+                        attr.set_foreground(*fg as u32 - 8);
+                        attr.set_is_bold(true);
+                    }
+                    3 => attr.set_is_bold(true),
+                    _ => {}
+                }
+            }
+            buf.layers[0].set_char((x as i32, y as i32), AttributedChar::new(*ch as char, attr));
         }
         if n.pad[y] {
             for x in row.len()..n.w {
@@ -402,6 +423,7 @@ fn failure(n: &Norm) -> Option<Failure> {
 /// one input feature that can be taken out of a normal form
 #[derive(Clone, Copy, Debug, PartialEq)]
 enum Step {
+    Rep,
     Shape,
     Prep,
     Bom,
@@ -422,7 +444,8 @@ enum Step {
 
 /// fixed order of the removals; content-deleting steps come first, character classes are mapped injectively onto plain
 /// letters (runs of equal cells stay runs), colours are taken out component by component, run structure last
-const STEPS: [Step; 16] = [
+const STEPS: [Step; 17] = [
+    Step::Rep,
     Step::Shape,
     Step::Prep,
     Step::Bom,
@@ -450,6 +473,7 @@ fn step_name(s: Step, n: &Norm) -> &'static str {
                 "prep_home"
             }
         }
+        Step::Rep => "bold_flag_storage",
         Step::Shape => "storage_shape",
         Step::Bom => "utf8_bom_prefix",
         Step::Pad => "explicit_trailing_blanks",
@@ -523,6 +547,14 @@ fn squeeze_one(row: &mut Vec<Cell>, min_run: usize) -> bool {
 fn candidates(s: Step, n: &Norm, protect_bom: bool) -> Vec<Norm> {
     let one = |o: Option<Norm>| o.into_iter().collect::<Vec<_>>();
     match s {
+        Step::Rep => {
+            if n.rep == 0 {
+                return Vec::new();
+            }
+            let mut c = n.clone();
+            c.rep = 0;
+            vec![c]
+        }
         Step::Shape => {
             if n.shape == 0 {
                 return Vec::new();
@@ -866,13 +898,17 @@ fn cases(fmt: usize, steer_bom: bool) -> BoxedStrategy<Case> {
     let bom = if (matches!(fmt, CTRLA | REN | ASC) && !steer_bom) || fmt == ATA { proptest::bool::weighted(0.01).boxed() } else { Just(false).boxed() };
     let alt = if fmt == REN { prop_oneof![3 => Just(0u8), 1 => 0u8..9].boxed() } else { Just(0u8).boxed() };
     let shape = prop_oneof![3 => Just(0u8), 2 => 1u8..icyv::shape::CODES];
-    (0u8..3, alt, bom, rows(w, max_height(fmt)), shape).prop_map(move |(prep, alt, bom, rows, shape)| Case { fmt: fmt as u8, prep, alt, bom, rows, shape }).boxed()
+    let rep = prop_oneof![2 => Just(0u8), 1 => 1u8..4];
+    (0u8..3, alt, bom, rows(w, max_height(fmt)), shape, rep).prop_map(move |(prep, alt, bom, rows, shape, rep)| Case { fmt: fmt as u8, prep, alt, bom, rows, shape, rep }).boxed()
 }
 
 fn minimize(c: &Case) -> Vec<Case> {
     let mut out = Vec::new();
     if c.prep != 0 {
         out.push(Case { prep: 0, ..c.clone() });
+    }
+    if c.rep != 0 {
+        out.push(Case { rep: 0, ..c.clone() });
     }
     if c.alt != 0 {
         out.push(Case { alt: 0, ..c.clone() });
@@ -942,10 +978,10 @@ fn main() {
          height 1..=40, rows = run-structured cell lists (runs of 1..=80 equal cells, optional fill up to the right margin, then cut to a length \
          0..=width with extra weight on width, width-1, width-2, 1, 0), last row never empty (a 'z' is stored when it would be); cells after the end of a row are either unset or explicit blanks on black; \
          characters 0x20..=0x7E, 0x80..=0xFE and the C0 codes 0x01..=0x1F that the format's reader prints as glyphs, minus the format's lead-ins (Avatar, PCBoard, Ctrl-A, Renegade: without BEL LF FF CR ESC and ^V ^Y ^L / '@' / ^A / '|'; ASCII: without BEL BS LF FF CR; \
-         ATASCII: 0x01..=0x1A and 0x20..=0x7C, i.e. without ESC, the cursor codes 0x1C..0x1F and 0x7D..0x7F), illegal characters replaced by letters by construction; attributes foreground 0..=15 x background 0..=7 per run \
+         ATASCII: 0x01..=0x1A and 0x20..=0x7C, i.e. without ESC, the cursor codes 0x1C..0x1F and 0x7D..0x7F), illegal characters replaced by letters by construction; attributes foreground 0..=15 x background 0..=7 per run, bright foregrounds stored as colour 8..=15, as colour 0..=7 + BOLD flag (as the ANSI parser stores them), alternating, or 8..=15 + BOLD (1/3 of the cases) \
          (ASCII: none; ATASCII: normal / inverse); screen preparation None / ClearScreen / Home uniformly; SaveOptions::new() with lossles_output=true; a 1% share of Ctrl-A / Renegade / ASCII buffers starts with the CP437 characters EF BB BF (not generated while the BOM finding is open), and 1% of the ATASCII buffers are a single row starting with inverse 'o;?' (the same bytes) without other inverse cells. \
          Non-trivial: at least one full-width row or at least 3 attribute changes inside one row; distinct by hash of the case. Failure key = format | first violated clause (char, bg, fg, size, save_err, load_err) of the reduced case | \
-         input features the reduced case needs: the features prep_cls/prep_home, utf8_bom_prefix, multirow (no single row and no two joined neighbouring rows fail), explicit_trailing_blanks, full_width_row, empty_row, c0_glyph, high_char, blank_cell, code_like_char (hex digits, X), \
+         input features the reduced case needs: the features bold_flag_storage, storage_shape, prep_cls/prep_home, utf8_bom_prefix, multirow (no single row and no two joined neighbouring rows fail), explicit_trailing_blanks, full_width_row, empty_row, c0_glyph, high_char, blank_cell, code_like_char (hex digits, X), \
          high_fg, bg_color (ATASCII: inverse), fg_color, long_run (> 3 equal cells), equal_chars are removed greedily in this fixed order; a removal is kept while the case still fails, a feature is named when its removal makes the case pass.",
     );
     eng.assume("a cell shows palette RGB of its foreground (entry+8 when bold and entry<8) and background as Buffer::render_to_rgba does; saved colours are the entries of the DOS default palette");
